@@ -120,8 +120,8 @@ VARIANTS = {
     'region[5,-)': {'kw': {'region_start': 5}, 'window': (5, None)},
     'region(-,9)': {'kw': {'region_end': 9}, 'window': (None, 9)},
 }
-QUICK_VARIANTS = ('verbose', 'pickle', 'region[2,9)', 'chrom=c2,region[2,9)', 'unwritable-cache', 'ignore=T>C,A>G')
-THOROUGH_VARIANTS = QUICK_VARIANTS + ('chrom=c2', 'region[5,-)', 'region(-,9)')
+QUICK_VARIANTS = ('verbose', 'pickle', 'region[2,9)', 'region(-,9)', 'chrom=c2,region[2,9)', 'unwritable-cache', 'ignore=T>C,A>G')
+THOROUGH_VARIANTS = QUICK_VARIANTS + ('chrom=c2', 'region[5,-)')
 WINDOWS = {n: v['window'] for n, v in VARIANTS.items() if 'window' in v}
 
 
